@@ -226,11 +226,18 @@ def annotate_body(body, c, out_log, notes=None):
                 hm = m[start:bo]
                 im = re.search(r"(?<![A-Za-z0-9_])in(?![A-Za-z0-9_])", hm)
                 head = head[:im.end()] + " " + L["iter"] + ":" + head[im.end():]
-            body = body[:start] + head + ann + body[bo:]
+            tail = body[bo:]
+            if L.get("end_proof"):
+                bc = match_close(m, bo)
+                inner = body[bo + 1:bc]
+                inner_m = m[bo + 1:bc].rstrip()
+                sep = "" if (not inner_m or inner_m[-1] in ";}") else ";"
+                tail = "{" + inner.rstrip() + sep + "\nproof {\n" + L["end_proof"] + "\n}\n" + body[bc:]
+            body = body[:start] + head + ann + tail
     return body
 
 
-def emit_fn(out, item, contract, mode, file, container, info, no_pub=False, canary=False):
+def emit_fn(out, item, contract, mode, file, container, info, no_pub=False, canary=False, findings=False):
     """Emit one fn item with its contract.  mode: verify | decl"""
     prefix, params, ret, where = split_fn_header(item)
     prefix = strip_vis(prefix)
@@ -288,6 +295,11 @@ def emit_fn(out, item, contract, mode, file, container, info, no_pub=False, cana
             out.add("    ensures", fn=fkey)
             for cl in c.ensures:
                 out.add("        %s," % cl.text, fn=fkey, labels=cl.labels, kind="ensures", clause=cl.text)
+    if findings and c and c.findings and has_body and not trusted:
+        if not c.ensures:
+            out.add("    ensures", fn=fkey)
+        for cl in c.findings:
+            out.add("        %s," % cl.text, fn=fkey, labels=cl.labels, kind="finding", clause=cl.text)
     if canary and has_body and not trusted:
         if not (c and c.ensures):
             out.add("    ensures", fn=fkey)
@@ -329,7 +341,33 @@ def variant_uses(sf):
 
 def load_unit(name):
     with open(os.path.join(VERIF, "units", name + ".toml"), "rb") as f:
-        return tomllib.load(f)
+        u = tomllib.load(f)
+    # fragments: shared lists of [[src]] entries (types and contract-only imports many units need)
+    srcs = []
+    for frag in u.get("include", []):
+        with open(os.path.join(VERIF, "units", "_" + frag + ".toml"), "rb") as f:
+            fr = tomllib.load(f)
+        srcs += fr["src"]
+        for c in fr.get("contracts", []):
+            if c not in u.setdefault("contracts", []):
+                u["contracts"].append(c)
+    # merge entries of the same file (fragment first)
+    merged = {}
+    order = []
+    for sdef in srcs + u["src"]:
+        if sdef["file"] not in merged:
+            merged[sdef["file"]] = {"file": sdef["file"], "items": []}
+            order.append(sdef["file"])
+        for it in sdef["items"]:
+            k = it if isinstance(it, str) else it["key"]
+            existing = [x if isinstance(x, str) else x["key"] for x in merged[sdef["file"]]["items"]]
+            if k in existing:
+                # the unit's own entry overrides the fragment's
+                merged[sdef["file"]]["items"][existing.index(k)] = it
+            else:
+                merged[sdef["file"]]["items"].append(it)
+    u["src"] = [merged[f] for f in order]
+    return u
 
 
 def load_specs(names):
@@ -339,7 +377,7 @@ def load_specs(names):
     return sf
 
 
-def generate(unit_name, repo=None, extra_fn_hook=None, canary=False):
+def generate(unit_name, repo=None, extra_fn_hook=None, canary=False, findings=False):
     repo = repo or REPO
     unit = load_unit(unit_name)
     specs = load_specs(unit.get("contracts", []))
@@ -417,9 +455,27 @@ def generate(unit_name, repo=None, extra_fn_hook=None, canary=False):
                 c = specs.fns.get((file, None, it.name))
                 if c:
                     used_contracts.add(c.key)
-                emit_fn(out, it, c, mode, file, None, info, canary=canary)
+                emit_fn(out, it, c, mode, file, None, info, canary=canary, findings=findings)
             elif kind in ("impl", "trait"):
                 header = ent.get("header")
+                flatten = ent.get("flatten_into")
+                if flatten:
+                    # N11: a trait whose ONLY impl in the crate is `impl Trait for T {}` (empty) is flattened into
+                    # inherent methods of T (`Self::f` resolves to the same bodies).  Both conditions are checked.
+                    tname = key.split()[1]
+                    impls = []
+                    import glob as _glob
+                    for pth in _glob.glob(os.path.join(repo, "src", "**", "*.rs"), recursive=True):
+                        if os.sep + "tests" + os.sep in pth:
+                            continue
+                        osf = SourceFile(pth, open(pth).read())
+                        for oi in osf.items:
+                            if oi.kind == "impl" and re.match(r"%s\b.* for " % re.escape(tname), oi.name):
+                                impls.append(oi)
+                    if len(impls) != 1 or impls[0].name != "%s for %s" % (tname, flatten) or impls[0].body().strip():
+                        raise Unsupported("N11: trait %s is not implemented exactly once by an empty impl for %s" % (tname, flatten))
+                    header = "impl %s" % flatten
+                    info.setdefault("item_rules", []).append({"item": "%s :: %s" % (file, key), "rule": "N11"})
                 first = True
                 for it in cands:
                     children = [ch for ch in it.children]
@@ -434,7 +490,7 @@ def generate(unit_name, repo=None, extra_fn_hook=None, canary=False):
                         h = header
                     if kind == "trait" and ia and ia.attrs:
                         out.add(ia.attrs.rstrip())
-                    if kind == "trait":
+                    if kind == "trait" and not flatten:
                         h = "pub " + h
                     out.add("%s {" % h, item="%s :: %s" % (file, key))
                     if ia and ia.head and first:
@@ -446,7 +502,7 @@ def generate(unit_name, repo=None, extra_fn_hook=None, canary=False):
                             if c:
                                 used_contracts.add(c.key)
                             m = names.get(ch.name) or mode
-                            emit_fn(out, ch, c, m, file, key, info, no_pub=(kind == "trait" or (" for " in key and not header)), canary=canary)
+                            emit_fn(out, ch, c, m, file, key, info, no_pub=((kind == "trait" and not flatten) or (" for " in key and not header)), canary=canary, findings=findings)
                         elif ch.kind in ("type", "const"):
                             out.add(strip_vis(ch.text()) if (kind == "trait" or " for " in key) else "pub " + strip_vis(ch.text()))
                     out.add("}")
